@@ -158,15 +158,22 @@ class SymbolTables:
                 # Create a new, top-level symbol table with the supplied name.
                 table = self.add(lname, node=node)
         else:
-            # We are already inside a scoping region so create a new table
-            # and setup its parent/child connections.
-            table = SymbolTable(
-                lname,
-                parent=self._current_scope,
-                checking_enabled=self._enable_checks,
-                node=node,
-            )
-            self._current_scope.add_child(table)
+            # We are already inside a scoping region. The parser may be
+            # matching this region again, having abandoned an earlier rule
+            # that contained it (e.g. a labelled DO that turned out not to be
+            # a block DO): re-use the table created then.
+            for table in self._current_scope.children:
+                if table.name == lname:
+                    break
+            else:
+                # Create a new table and setup its parent/child connections.
+                table = SymbolTable(
+                    lname,
+                    parent=self._current_scope,
+                    checking_enabled=self._enable_checks,
+                    node=node,
+                )
+                self._current_scope.add_child(table)
 
         # Finally, make this new table the current scope
         self._current_scope = table
